@@ -23,7 +23,7 @@
    Sub / Div / tuplets / Rhythm, string macros and their calls, arrays as variables (ARRAY), `.s()`, system values
    (TR, TIME, ...), malformed script syntax (the error paths of the readers). *)
 From Coq Require Import String Ascii.
-From Sakura.Model Require Import Base Cursor Cursor2 Length Event Writer Song Token LoopMachine LexCore RunCore Compile.
+From Sakura.Model Require Import Base Cursor Cursor2 Length Event Writer Song Token LoopMachine LexCore RunCore Compile Msg.
 From Sakura.Model Require Expr.
 From Sakura.Gen Require Import Consts SysFuncRows Messages VarRows.
 Open Scope Z_scope.
@@ -95,11 +95,12 @@ Definition global_scope : scope :=
 (* the lexer                                                                                        *)
 (* ---------------------------------------------------------------------------------------------- *)
 (* song fields read or written at lex time *)
-Record slex := mkSL { sl_timebase : Z; sl_logs : list (list ch); sl_scopes : list scope; sl_funcs : list fdef }.
+(* (sl_ja: the message language, song.message_data - read through song.get_message, never written by the lexer) *)
+Record slex := mkSL { sl_timebase : Z; sl_logs : list (list ch); sl_scopes : list scope; sl_funcs : list fdef; sl_ja : bool }.
 Definition sl_add_log (ls : slex) (m : list ch) : slex :=
-  if SAKURA_MAX_LOGS <=? zlen (sl_logs ls) then ls else mkSL (sl_timebase ls) (sl_logs ls ++ [m]) (sl_scopes ls) (sl_funcs ls).
-Definition sl_set_scopes (ls : slex) (v : list scope) : slex := mkSL (sl_timebase ls) (sl_logs ls) v (sl_funcs ls).
-Definition sl_set_funcs (ls : slex) (v : list fdef) : slex := mkSL (sl_timebase ls) (sl_logs ls) (sl_scopes ls) v.
+  if SAKURA_MAX_LOGS <=? zlen (sl_logs ls) then ls else mkSL (sl_timebase ls) (sl_logs ls ++ [m]) (sl_scopes ls) (sl_funcs ls) (sl_ja ls).
+Definition sl_set_scopes (ls : slex) (v : list scope) : slex := mkSL (sl_timebase ls) (sl_logs ls) v (sl_funcs ls) (sl_ja ls).
+Definition sl_set_funcs (ls : slex) (v : list fdef) : slex := mkSL (sl_timebase ls) (sl_logs ls) (sl_scopes ls) v (sl_ja ls).
 Definition sl_insert (ls : slex) (name : list ch) (v : vv) : slex := sl_set_scopes ls (vars_insert name v (sl_scopes ls)).
 Definition sl_get (ls : slex) (name : list ch) : option vv := vars_lookup name (sl_scopes ls).
 
@@ -157,7 +158,7 @@ Definition read_args_tokens_s (ls : slex) (s : list ch) (ln : Z) : res (list (op
   if paren then
     let '(s3, ln3) := skip_space s2 ln2 in
     if eq_char s3 41 then Ok (ts, tl s3, ln3, ls)
-    else Ok (ts, s3, ln3, sl_add_log ls (zs "[ERROR](" ++ show_int ln3 ++ zs ") " ++ msg_en_MissingParenthesis))
+    else Ok (ts, s3, ln3, sl_add_log ls (zs "[ERROR](" ++ show_int ln3 ++ zs ") " ++ msg_MissingParenthesis (sl_ja ls)))
   else Ok (ts, s2, ln2, ls).
 
 (* read_for: the increment of a FOR header ends at the ')' that closes the header; parentheses inside it (level) belong
@@ -178,22 +179,22 @@ Fixpoint get_token_close (s : list ch) (ln : Z) (level : nat) : list ch * list c
 
 (* read_warning / read_error / read_error_cmd *)
 Definition read_warning_s (ls : slex) (s : list ch) (ln : Z) (cmd reason : list ch) : slex :=
-  sl_add_log ls (zs "[WARN](" ++ show_int ln ++ zs ") " ++ msg_en_ScriptSyntaxWarning ++ zs " """ ++ cmd ++ zs """ " ++ reason
-                 ++ zs " : " ++ msg_en_Near ++ zs " """ ++ near_text_raw s ++ zs """").
+  sl_add_log ls (zs "[WARN](" ++ show_int ln ++ zs ") " ++ msg_ScriptSyntaxWarning (sl_ja ls) ++ zs " """ ++ cmd ++ zs """ " ++ reason
+                 ++ zs " : " ++ msg_Near (sl_ja ls) ++ zs " """ ++ near_text_raw s ++ zs """").
 Definition read_error_s (ls : slex) (s : list ch) (ln : Z) (msg : list ch) : slex :=
-  sl_add_log ls (zs "[ERROR](" ++ show_int ln ++ zs ") " ++ msg ++ zs " " ++ msg_en_Near ++ zs " """ ++ near_text_raw s ++ zs """").
+  sl_add_log ls (zs "[ERROR](" ++ show_int ln ++ zs ") " ++ msg ++ zs " " ++ msg_Near (sl_ja ls) ++ zs " """ ++ near_text_raw s ++ zs """").
 Definition read_error_cmd_s (ls : slex) (s : list ch) (ln : Z) (cmd : list ch) : slex :=
-  sl_add_log ls (zs "[ERROR](" ++ show_int ln ++ zs ") " ++ msg_en_ScriptSyntaxError ++ zs " """ ++ cmd ++ zs """ "
-                 ++ msg_en_Near ++ zs " """ ++ near_text_raw s ++ zs """").
-Definition reserved_msg (name : list ch) : list ch := msg_en_ErrorDefineVariableIsReserved ++ zs ": """ ++ name ++ zs """".
+  sl_add_log ls (zs "[ERROR](" ++ show_int ln ++ zs ") " ++ msg_ScriptSyntaxError (sl_ja ls) ++ zs " """ ++ cmd ++ zs """ "
+                 ++ msg_Near (sl_ja ls) ++ zs " """ ++ near_text_raw s ++ zs """").
+Definition reserved_msg (ja : bool) (name : list ch) : list ch := msg_ErrorDefineVariableIsReserved ja ++ zs ": """ ++ name ++ zs """".
 
 (* lex_error on the script lexer state *)
 Definition lex_error_s (ls : slex) (s : list ch) (ln : Z) (msg : list ch) : slex :=
-  let log := zs "[ERROR](" ++ show_int ln ++ zs ") " ++ msg_en_UnknownChar ++ zs ": """ ++ msg ++ zs """ "
-             ++ msg_en_Near ++ zs " """ ++ near_text s ++ zs """" in
+  let log := zs "[ERROR](" ++ show_int ln ++ zs ") " ++ msg_UnknownChar (sl_ja ls) ++ zs ": """ ++ msg ++ zs """ "
+             ++ msg_Near (sl_ja ls) ++ zs " """ ++ near_text s ++ zs """" in
   let n := zlen (sl_logs ls) in
   if n =? LEX_MAX_ERROR then
-    sl_add_log ls (zs "[ERROR](" ++ show_int ln ++ zs ") " ++ msg_en_TooManyErrorsInLexer)
+    sl_add_log ls (zs "[ERROR](" ++ show_int ln ++ zs ") " ++ msg_TooManyErrorsInLexer (sl_ja ls))
   else if n <? LEX_MAX_ERROR then sl_add_log ls log
   else ls.
 
@@ -214,10 +215,10 @@ Fixpoint preprocess_f (fuel : nat) (ls : slex) (s : list ch) (ln : Z) : slex :=
               let '(s2, ln2) := skip_space s1 ln in
               let '(fname, s3) := get_word s2 in
               let ls1 := match sl_get ls fname with
-                         | Some _ => read_warning_s ls s3 ln2 fname msg_en_ErrorRedfineFnuction
+                         | Some _ => read_warning_s ls s3 ln2 fname (msg_ErrorRedfineFnuction (sl_ja ls))
                          | None => ls
                          end in
-              let ls2 := if is_reserved fname then read_error_s ls1 s3 ln2 (reserved_msg fname) else ls1 in
+              let ls2 := if is_reserved fname then read_error_s ls1 s3 ln2 (reserved_msg (sl_ja ls1) fname) else ls1 in
               let id := length (sl_funcs ls2) in
               let ls3 := sl_set_funcs (sl_insert ls2 fname (VFunc id)) (sl_funcs ls2 ++ [mkF fname [] []]) in
               preprocess_f f ls3 s3 ln2
@@ -697,12 +698,12 @@ Section Step.
     do p <- eval_args_o l (st_set_needs st true);
     let '(vs, st1) := p in Ok (vs, st_set_needs st1 tmp).
 
-  Definition limit_msg (is_for : bool) (lineno : Z) : list ch :=
-    zs "[ERROR](" ++ show_int lineno ++ zs ") " ++ msg_en_LoopTooManyTimes ++ (if is_for then zs " FOR(>" else zs " WHILE(>")
+  Definition limit_msg (ja : bool) (is_for : bool) (lineno : Z) : list ch :=
+    zs "[ERROR](" ++ show_int lineno ++ zs ") " ++ msg_LoopTooManyTimes ja ++ (if is_for then zs " FOR(>" else zs " WHILE(>")
     ++ show_int MAX_LOOP ++ zs ")".
   (* the limit arm: the error is logged, a BREAK / CONTINUE of the last pass is consumed, a RETURN is kept *)
   Definition limit_exit (is_for : bool) (lineno : Z) (st : sstate) : sstate :=
-    let st1 := st_log st (limit_msg is_for lineno) in
+    let st1 := st_log st (limit_msg (s_ja (ss_song st)) is_for lineno) in
     if (st_flag st1 =? 1) || (st_flag st1 =? 2) then st_set_flag st1 0 else st1.
 
   (* exec_while *)
@@ -759,7 +760,7 @@ Section Step.
     | SDefVar is_int name init =>
         do p <- exec_value_o init st;
         let '(v, st1) := p in
-        let st2 := if is_int && is_arr v then st_runtime_error st1 (msg_en_ErrorTypeMismatch ++ zs ": " ++ name) else st1 in
+        let st2 := if is_int && is_arr v then st_runtime_error st1 (msg_ErrorTypeMismatch (s_ja (ss_song st1)) ++ zs ": " ++ name) else st1 in
         Ok (st_insert st2 name (VV v))
     | SLetVar name e =>
         do p <- exec_value_o e st;
@@ -828,18 +829,22 @@ Fixpoint exec_s (depth : nat) (toks : list stok) (s : res sstate) : res sstate :
 (* ---------------------------------------------------------------------------------------------- *)
 Definition DEPTH : nat := Z.to_nat 600.
 
-Definition lex_script (src : list ch) : res slex_out := lex_s (mkSL 96 [] [global_scope] []) src 0.
+(* `ja` = the message language (false = "en", the default; true = "ja") *)
+Definition lex_script_lang (ja : bool) (src : list ch) : res slex_out := lex_s (mkSL 96 [] [global_scope] [] ja) src 0.
+Definition lex_script (src : list ch) : res slex_out := lex_script_lang false src.
 
 Definition state_after_lex (ls : slex) : sstate :=
-  mkS (song_after_lex (mkLex (sl_timebase ls) (sl_logs ls) [] rhythm_rows)) (sl_scopes ls) (sl_funcs ls) false.
+  mkS (song_after_lex (mkLex (sl_timebase ls) (sl_logs ls) [] rhythm_rows (sl_ja ls))) (sl_scopes ls) (sl_funcs ls) false.
 
-Definition run_script (src : list ch) : res sstate :=
-  do lx <- lex_script src;
+Definition run_script_lang (ja : bool) (src : list ch) : res sstate :=
+  do lx <- lex_script_lang ja src;
   let '(toks, ls) := lx in
   exec_s DEPTH toks (Ok (state_after_lex ls)).
+Definition run_script (src : list ch) : res sstate := run_script_lang false src.
 
-Definition compile_script (src : list ch) : res (list byte * list ch) :=
-  do st <- run_script src;
+Definition compile_script_lang (ja : bool) (src : list ch) : res (list byte * list ch) :=
+  do st <- run_script_lang ja src;
   let s := ss_song st in
   do bytes <- generate (s_timebase s) (tracks_for_writer s);
   Ok (bytes, logs_str (s_logs s)).
+Definition compile_script (src : list ch) : res (list byte * list ch) := compile_script_lang false src.
